@@ -31,6 +31,9 @@ type refVerdict struct {
 	// AllEntriesValid: every per-signer signature entry the transaction carries is
 	// a valid signature (no junk entry).
 	AllEntriesValid bool
+	// SlotMismatch: some per-signer entry is not a valid signature of the address
+	// its slot stands for (junk, or somebody else's signature).
+	SlotMismatch bool
 	// NonCanonical: some entry verifies only when bytes after the DER signature
 	// are ignored (as the crypto library does).
 	NonCanonical bool
@@ -191,6 +194,7 @@ func reference(f *fixture, tx *pb.Transaction) (v refVerdict) {
 			if _, ok := v.entry(si, digest); !ok {
 				v.AllEntriesValid = false
 			}
+			v.SlotMismatch = true // the aggregated form has no per-signer slots
 		}
 	} else {
 		v.AllEntriesValid = true
@@ -199,15 +203,23 @@ func reference(f *fixture, tx *pb.Transaction) (v refVerdict) {
 			if a, ok := v.entry(si, digest); ok {
 				v.Signers[a] = true
 				iniSigners[a] = true
+				if !initiatorIsAccount && a != tx.Initiator {
+					v.SlotMismatch = true
+				}
 			} else {
 				v.AllEntriesValid = false
+				v.SlotMismatch = true
 			}
 		}
-		for _, si := range tx.AuthRequireSigns {
+		for i, si := range tx.AuthRequireSigns {
 			if a, ok := v.entry(si, digest); ok {
 				v.Signers[a] = true
+				if i >= len(listed) || listed[i] != a {
+					v.SlotMismatch = true
+				}
 			} else {
 				v.AllEntriesValid = false
+				v.SlotMismatch = true
 			}
 		}
 		if initiatorIsAccount {
